@@ -670,6 +670,12 @@ func (ds *DataStore) WriteResurrectionWithXattrs(ctx context.Context, k string, 
 	if ferr != nil {
 		return 0, ds.failX("WriteResurrectionWithXattrs", k, opWrite, alt, idx, ferr, body, xattrs, false)
 	}
+	// The resurrection is an insert: Couchbase Server refuses it when a live document exists.  rosmar
+	// keeps its per-row tombstone flag set when a plain Set re-creates a tombstoned document, and would
+	// let the insert replace that live document; the seam restores the server's answer.
+	if v, _, gerr := ds.DataStore.GetRaw(ctx, k); gerr == nil && v != nil {
+		return 0, ds.post("WriteResurrectionWithXattrs", k, opWrite, alt, idx, sgbucket.ErrKeyExists)
+	}
 	casOut, err := ds.DataStore.WriteResurrectionWithXattrs(ctx, k, exp, body, xattrs, opts)
 	if err == nil {
 		err = ds.postX("WriteResurrectionWithXattrs", k, opWrite, alt, idx, err, body, xattrs, false)
